@@ -8,7 +8,8 @@ package main
 //        create NAMESPEC                 NewFileWriterWithName on a fresh path with that name, then Close
 //        f HEX EXPECTEDNAMESPEC KIND     a file's bytes (made by the generator with the real writer); stored in the
 //                                        case directory; KIND ∈ v3 v3app v3open v3noname v2 v2app v2resv v2nometa v3cmp v2cmp (rewritten by the real Compactor)
-//        scan                            explorer.New(caseDir).Scan, then the full listing
+//        scan                            Scan of the case directory by the case's ONE explorer (re-scans reuse it), then the full listing
+//        wipe | rmlast                   delete every file / the newest file of the case directory (then `scan` again)
 // reply: ok | rej longname
 //        name HEX | name err KIND
 //        listing total=T scanned=S errors=E names=HEX,HEX,…
@@ -41,8 +42,7 @@ func c29NameLine(path string) string {
 	return "name " + c01Hex([]byte(n))
 }
 
-func c29Listing(dir string) string {
-	e := explorer.New(dir)
+func c29Listing(e *explorer.Explorer) string {
 	if err := e.Scan(context.Background()); err != nil {
 		return "listing err " + strings.ReplaceAll(err.Error(), " ", "_")
 	}
@@ -71,6 +71,8 @@ func c29Run(in *bufio.Scanner, w *bufio.Writer) {
 	}
 	defer os.RemoveAll(root)
 	dir, n := root, 0
+	var ex *explorer.Explorer
+	var paths []string
 	for in.Scan() {
 		line := in.Text()
 		f := strings.Split(line, " ")
@@ -79,6 +81,8 @@ func c29Run(in *bufio.Scanner, w *bufio.Writer) {
 			dir = filepath.Join(root, "case"+f[1])
 			_ = os.MkdirAll(filepath.Join(dir, "600", "ab"), 0o755)
 			n = 0
+			ex = explorer.New(dir)
+			paths = nil
 			fmt.Fprintln(w, line)
 		case f[0] == "create" && len(f) == 2:
 			name, ok := c01Spec(f[1])
@@ -99,6 +103,19 @@ func c29Run(in *bufio.Scanner, w *bufio.Writer) {
 				continue
 			}
 			_ = fw.Close()
+			paths = append(paths, p)
+			fmt.Fprintln(w, "ok")
+		case f[0] == "wipe" && len(f) == 1:
+			for _, p := range paths {
+				_ = os.Remove(p)
+			}
+			paths = nil
+			fmt.Fprintln(w, "ok")
+		case f[0] == "rmlast" && len(f) == 1:
+			if len(paths) > 0 {
+				_ = os.Remove(paths[len(paths)-1])
+				paths = paths[:len(paths)-1]
+			}
 			fmt.Fprintln(w, "ok")
 		case f[0] == "f" && len(f) == 4:
 			b, ok := c01Unhex(f[1])
@@ -109,9 +126,13 @@ func c29Run(in *bufio.Scanner, w *bufio.Writer) {
 			n++
 			p := filepath.Join(dir, "600", "ab", fmt.Sprintf("f%04d.hyd", n))
 			_ = os.WriteFile(p, b, 0o644)
+			paths = append(paths, p)
 			fmt.Fprintln(w, c29NameLine(p))
 		case f[0] == "scan" && len(f) == 1:
-			fmt.Fprintln(w, c29Listing(dir))
+			if ex == nil {
+				ex = explorer.New(dir)
+			}
+			fmt.Fprintln(w, c29Listing(ex))
 		default:
 			fmt.Fprintln(w, "bad-op")
 		}
@@ -252,6 +273,24 @@ func c29Gen(rng *rand.Rand, tier string, w *bufio.Writer) {
 			if _, err := v2.NewCompactor(p, bs, 0).ForceCompact(); err != nil {
 				return true
 			}
+		case "v3torn":
+			// crash between the header write and the name write of createNewFile: the file holds the
+			// header and only part of the name; the swamp's writer opens it again and goes on
+			_ = fw.Close()
+			img, err := os.ReadFile(p)
+			if err != nil || len(name) == 0 {
+				return true
+			}
+			_ = os.WriteFile(p, img[:64+rng.Intn(len(name))], 0o644)
+			fw, err = v2.NewFileWriterWithName(p, bs, string(name))
+			if err != nil {
+				return true
+			}
+			for _, e := range c29Entries(rng) {
+				_ = fw.WriteEntry(e)
+			}
+			_ = fw.WriteEntry(v2.Entry{Operation: 1, Key: "after-crash", Data: []byte("x")})
+			_ = fw.Close()
 		default:
 			_ = fw.Close()
 		}
@@ -301,8 +340,13 @@ func c29Gen(rng *rand.Rand, tier string, w *bufio.Writer) {
 	v3([]byte("dom/realm/swamp"), "v3")
 	legacy([]byte("old/style/swamp"), "v2")
 	v3([]byte("dom/realm/compacted"), "v3cmp")
+	v3([]byte("dom/realm/torn-at-create"), "v3torn")
 	legacy([]byte("old/style/compacted"), "v2cmp")
 	fmt.Fprintln(w, "scan")
+	fmt.Fprintln(w, "rmlast")
+	fmt.Fprintln(w, "scan")
+	fmt.Fprintln(w, "wipe")
+	fmt.Fprintln(w, "scan") // a re-scan that finds nothing must list nothing
 	// ---- random directories
 	cases, per := 40, 14
 	if tier == "thorough" {
@@ -322,7 +366,7 @@ func c29Gen(rng *rand.Rand, tier string, w *bufio.Writer) {
 			case k >= 22:
 				legacy(name, "v2cmp")
 			case k >= 20:
-				v3(name, "v3cmp")
+				v3(name, []string{"v3cmp", "v3torn"}[rng.Intn(2)])
 			case k < 6:
 				v3(name, "v3")
 			case k < 10:
@@ -345,5 +389,9 @@ func c29Gen(rng *rand.Rand, tier string, w *bufio.Writer) {
 			}
 		}
 		fmt.Fprintln(w, "scan")
+		if rng.Intn(3) == 0 {
+			fmt.Fprintln(w, []string{"rmlast", "wipe"}[rng.Intn(2)])
+			fmt.Fprintln(w, "scan")
+		}
 	}
 }
